@@ -1063,7 +1063,9 @@ func genFiles(t *rapid.T) Case {
 	c := Case{Kind: "files", Dirs: rapid.IntRange(1, 3).Draw(t, "dirs"), Want: w}
 	c.ViaImp = rapid.Bool().Draw(t, "via-import")
 	pool := []string{w + ".yang", w + "@2020-01-01.yang", w + "@2021-06-30.yang", w + "@2019-12-31.yang",
-		w + "X@2022-01-01.yang", "X" + w + "@2022-01-01.yang", w + "@2020-1-01.yang", w + "@2023-01-01.yang.bak", w + "@2023-01-01.YANG", w + "-ext@2022-05-05.yang", w + "@2022-01-01x.yang", w + ".yang.orig", w[:len(w)-1] + ".yang", w + "2.yang", w + "@.yang", w + "@20220101.yang"}
+		w + "X@2022-01-01.yang", "X" + w + "@2022-01-01.yang", w + "@2020-1-01.yang", w + "@2023-01-01.yang.bak", w + "@2023-01-01.YANG", w + "-ext@2022-05-05.yang", w + "@2022-01-01x.yang", w + ".yang.orig", w[:len(w)-1] + ".yang", w + "2.yang", w + "@.yang", w + "@20220101.yang",
+		// names that differ from the wanted one in letter case only: other modules' files (module names are case-sensitive)
+		strings.ToUpper(w[:1]) + w[1:] + ".yang", strings.ToUpper(w) + "@2024-05-05.yang", strings.ToUpper(w[:1]) + w[1:] + "@2024-06-06.yang"}
 	if strings.ContainsAny(w, ".-_") {
 		// files of modules whose names differ from the wanted one in a punctuation character only; they carry the
 		// latest dates, so they would win if they were taken for candidates
@@ -1466,7 +1468,7 @@ func TestCheck(t *testing.T) {
 		ID:    "C13",
 		Level: "exploration",
 		Rule: "five generators. (e) mixed: revisions 2018-2021 of lib each loaded, waiting as lib@DATE.yang in a search-path directory, or absent, optionally a text without revision; 1-3 importers (alpha, middle, omega) with or without revision-date using lib's grouping and typedef; three load orders, one Process. Oracle: the bare name denotes the latest revision held afterwards, undated imports denote it, dated imports denote their revision when it is held, and what an importer's uses and type bring comes from the module its import denotes. (d) revisions with submodules: 1-3 revisions of one module, each including the submodule sub with or without revision-date, 1-2 texts of sub (with a nested include of a second submodule in a third of the cases), six load orders. Oracle: the tree of every revision holds its own leaf, the leaf of exactly the submodule text its include denotes, and the nested submodule's leaf once. (a) revisions: 1-5 module headers with a name from {foo, bar} and 0-3 revision dates (texts with equal name and latest revision are identical), plus 0-3 importers with and without revision-date; every load permutation for up to 4 texts (24), 12 sampled for 5. Oracle: exactly one text per (name, latest revision) is accepted in every order, the bare key and undated imports denote the latest loaded revision, dated keys and dated imports the exact one. " +
-			"(b) files: 1-3 search-path directories (temporary, outside /repo and /verif) with up to 7 files from {name.yang, three name@DATE.yang (the wanted name is one of name, na.me, n.a-m_e, name.v1, na-me; for names with punctuation also files of modules that differ in that character only, with the latest dates), near misses: nameX@.., Xname@.., name@2020-1-01.yang, ...yang.bak, ...YANG, name-ext@.., name@DATEx.yang, name.yang.orig, nam.yang, name2.yang, name@.yang, name@20220101.yang; sometimes a directory of that name}; in a third of the cases directories are put on the search path as dir/... (dir and everything below it is searched; all true candidates below such an entry lie in one place, the directory itself or a sub-directory up to two levels down) and files also lie in sub-directories of plain entries, where they are no candidates; every file declares the wanted module with a namespace naming its own path; fetched by Read, by an undated import and by a dated import, in a quarter of the cases after the same fetch was tried (and had to fail) before the directories were put on the search path. Oracle: the module comes from the first directory holding a candidate, name.yang else the latest date (dated import: the exact file); with no candidate the fetch fails. " +
+			"(b) files: 1-3 search-path directories (temporary, outside /repo and /verif) with up to 7 files from {name.yang, three name@DATE.yang (the wanted name is one of name, na.me, n.a-m_e, name.v1, na-me; for names with punctuation also files of modules that differ in that character only, with the latest dates), near misses: nameX@.., Xname@.., name@2020-1-01.yang, ...yang.bak, ...YANG, name-ext@.., name@DATEx.yang, name.yang.orig, nam.yang, name2.yang, name@.yang, name@20220101.yang, Name.yang, NAME@DATE.yang; sometimes a directory of that name}; in a third of the cases directories are put on the search path as dir/... (dir and everything below it is searched; all true candidates below such an entry lie in one place, the directory itself or a sub-directory up to two levels down) and files also lie in sub-directories of plain entries, where they are no candidates; every file declares the wanted module with a namespace naming its own path; fetched by Read, by an undated import and by a dated import, in a quarter of the cases after the same fetch was tried (and had to fail) before the directories were put on the search path. Oracle: the module comes from the first directory holding a candidate, name.yang else the latest date (dated import: the exact file); with no candidate the fetch fails. " +
 			"(c) split: a generated single module and a random partition of its body into 1-3 submodules (all definitions move, nodes stay or move; submodules include each other where they refer to each other, mutual includes allowed with the ignore-circular option). Oracle: tree, types, attributes and identity lists of the module equal those of the unsplit module. " +
 			"Non-trivial = (a) two texts sharing a name or a duplicate, (b) >= 2 files, (c) >= 1 submodule, (d) >= 2 module revisions, (e) >= 2 revisions and >= 2 importers; distinct by case",
 		Assumptions: []string{
